@@ -49,6 +49,7 @@ func (s *Str) UnmarshalJSON(b []byte) error {
 //	Tuple (Ts, HasSize, Lo,Hi = the given size when HasSize), Struct (Strs names, Opt, Ts),
 //	Variant (Ts), Optional NotUndef Type Sensitive Iterable (Ts[0]),
 //	Text (S: a type expression that is parsed; not in the Rocq model)
+//	Rep (S family, Strs parameter, R route: a type with several internal representations of one parameter, multirep.go)
 type T struct {
 	K       string `json:"k"`
 	Lo      int64  `json:"lo,omitempty"`
@@ -62,6 +63,8 @@ type T struct {
 	Opt     []bool `json:"opt,omitempty"`
 	Ts      []*T   `json:"ts,omitempty"`
 	HasSize bool   `json:"has_size,omitempty"`
+	// Rep (multirep.go): S family, Strs the abstract parameter, R the construction route ("" = the base route)
+	R string `json:"r,omitempty"`
 }
 
 // V describes a value.
@@ -218,7 +221,7 @@ func (v *V) inModel() bool {
 			return true
 		}
 		return x.isRawFromArray()
-	}, func(t *T) bool { return t.K == "Text" || t.K == "Struct" })
+	}, func(t *T) bool { return t.K == "Text" || t.K == "Struct" || (t.K == "Rep" && !t.repInModel()) })
 }
 
 // expected to have a hash key: everything but Sensitive and Object values (inside or at the top)
@@ -351,6 +354,8 @@ func (t *T) build(c px.Context) px.Type {
 		return types.NewSensitiveType(t.Ts[0].build(c))
 	case "Iterable":
 		return types.NewIterableType(t.Ts[0].build(c))
+	case "Rep":
+		return t.buildRep(c)
 	case "Text":
 		pt := c.ParseType(string(t.S))
 		if rt, ok := pt.(px.ResolvableType); ok && strings.HasPrefix(string(t.S), "TypeSet[") {
@@ -413,6 +418,14 @@ func (t *T) wellFormed() bool {
 		for _, s := range t.Strs {
 			if s == "" {
 				return false
+			}
+		}
+	case "Rep":
+		if t.S == "Pattern" || t.S == "Regexp" {
+			for _, s := range t.Strs {
+				if _, err := regexpCompile(string(s)); err != nil {
+					return false
+				}
 			}
 		}
 	}
@@ -572,6 +585,8 @@ func (t *T) String() string {
 		return fmt.Sprintf("%s[%s]", t.K, sz())
 	case "Float":
 		return fmt.Sprintf("Float[%v,%v]", math.Float64frombits(t.FLo), math.Float64frombits(t.FHi))
+	case "Rep":
+		return t.repString()
 	case "StringVal", "Regexp", "Text":
 		return fmt.Sprintf("%s(%q)", t.K, string(t.S))
 	case "Enum":
@@ -768,6 +783,8 @@ func (t *T) gallina() string {
 		return fmt.Sprintf("(TVariant %s)", subs())
 	case "Optional", "NotUndef", "Type", "Sensitive", "Iterable":
 		return fmt.Sprintf("(T%s %s)", t.K, sub(0))
+	case "Rep":
+		return t.repGallina()
 	}
 	panic("no Gallina term for type " + t.K)
 }
